@@ -493,8 +493,12 @@ def implementedBy(
     if spec is not None:
         # old-style __implemented__ = foo declaration
         spec = (spec, )          # tuplefy, as it might be just an int
-        spec = Implements.named(spec_name, *_normalizeargs(spec))
+        declared = tuple(_normalizeargs(spec))
+        spec = Implements.named(spec_name, *declared)
         spec.inherit = None      # old-style implies no inherit
+        # They are declarations like any other: later ``classImplements``
+        # calls add to them.
+        spec.declared = declared
         del cls.__implemented__  # get rid of the old-style declaration
     else:
         try:
